@@ -8,7 +8,7 @@ EXTENDS Loc
 Classes == {"SI", "CI", "SEQ", "CDS", "TX", "FEAT", "GENE", "VAR", "VCOLL", "COLL", "PARENT", "CODON"}
 Kinds == {"start>end", "negative", "beyond-sequence", "length-mismatch", "frames-mismatch", "cds-outside-exons",
           "undirected", "wrong-alphabet", "overlapping", "duplicate", "empty", "mixed-frame-phase", "multi-primary",
-          "half-bounds", "strand-mismatch", "zero-length", "beyond-sequence-not-last", "gap-letter", "too-short", "too-long"}
+          "half-bounds", "strand-mismatch", "zero-length", "beyond-sequence-not-last", "gap-letter", "too-short", "too-long", "trailing-newline", "leading-blank"}
 (* outcomes: value | documented rejection | anything else is an internal error *)
 InternalExc(o) == IsExc(o) /\ o[2] \notin DocumentedExc
 Pairwise(ss, es) == Len(ss) = Len(es) /\ Len(ss) > 0 /\ \A i \in DOMAIN ss : 0 <= ss[i] /\ ss[i] <= es[i]
@@ -51,6 +51,9 @@ Corrupt(cls, a, kind) ==
     [] cls \in {"CI", "FEAT"} /\ kind = "beyond-sequence-not-last" /\ a[4] >= 0 /\ Len(a[1]) >= 2 ->
          <<a[1], Bump(a[2], 1, a[4] + 1), a[3], a[4]>>
     [] cls = "SEQ" /\ kind = "wrong-alphabet" -> <<Append(a[1], "!"), a[2]>>
+    \* a line of a file handed over without stripping it
+    [] cls = "SEQ" /\ kind = "trailing-newline" -> <<Append(a[1], "\n"), a[2]>>
+    [] cls = "SEQ" /\ kind = "leading-blank" -> <<<<" ">> \o a[1], a[2]>>
     [] cls = "CDS" /\ kind = "start>end" -> <<Bump(a[1], 1, a[2][1] + 1), a[2], a[3], a[4], a[5], a[6]>>
     [] cls = "CDS" /\ kind = "frames-mismatch" -> <<a[1], a[2], a[3], Append(a[4], 0), a[5], a[6]>>
     [] cls = "CDS" /\ kind = "mixed-frame-phase" /\ Len(a[1]) > 1 -> <<a[1], a[2], a[3], a[4], a[5], TRUE>>
